@@ -76,6 +76,7 @@ package ice
 
 //@ func (*Agent).validateNonSTUNTraffic$1
 //@   props C07
+//@   site call seen#1 assert C07 C04 data-from-a-known-peer-refreshes-that-peers-liveness: recv == remoteCandidate && remoteCandidate != nil && arg0 == false
 //@   site call findRemoteCandidate#1 assert same-transport-and-source: arg1 == local.NetworkType() && arg2 == remote
 
 // The key of the per-candidate remote cache must identify the source exactly:
